@@ -1,11 +1,13 @@
 package sim
 
 import (
+	"encoding/binary"
 	"encoding/json"
 	"fmt"
 	"os"
 	"runtime"
 	"runtime/debug"
+	"sort"
 	"strconv"
 	"strings"
 	"testing"
@@ -126,7 +128,7 @@ func TestWorker(t *testing.T) {
 	start := time.Now()
 	stats := core.NewStats()
 	res := &core.WorkerOut{Stats: stats}
-	sigs := map[string]struct{}{}
+	sigs := map[uint64]struct{}{}
 	reported := map[string]bool{}
 
 	// watchdog: real time, outside any bubble
@@ -171,7 +173,7 @@ func TestWorker(t *testing.T) {
 			r := execute(t, sc, cfg, core.NewSeedChooser(runSeed), known)
 			nontrivial := stats.Add(r)
 			if nontrivial {
-				sigs[r.Signature()[:16]] = struct{}{}
+				sigs[r.Sig64()] = struct{}{}
 				if len(stats.Samples) < 2 {
 					tr := r.Trace()
 					if len(tr) > 40 {
@@ -234,7 +236,7 @@ func minimise(t *testing.T, sc *scen.Scenario, cfg core.Config, seed, runSeed ui
 		Detail: detail, Tape: tape, Signature: rr.Signature(), Trace: rr.Trace(), MinRuns: runs, OrigTape: len(orig)}
 }
 
-func writeOut(out string, res *core.WorkerOut, sigs map[string]struct{}) {
+func writeOut(out string, res *core.WorkerOut, sigs map[uint64]struct{}) {
 	if out == "" {
 		b, _ := json.MarshalIndent(res, "", " ")
 		fmt.Println(string(b))
@@ -242,12 +244,17 @@ func writeOut(out string, res *core.WorkerOut, sigs map[string]struct{}) {
 	}
 	b, _ := json.Marshal(res)
 	os.WriteFile(out+".json", b, 0o644)
-	var sb strings.Builder
+	// sorted 64-bit signature prefixes, so that the driver can count the union by a streaming merge
+	keys := make([]uint64, 0, len(sigs))
 	for s := range sigs {
-		sb.WriteString(s)
-		sb.WriteByte('\n')
+		keys = append(keys, s)
 	}
-	os.WriteFile(out+".sigs", []byte(sb.String()), 0o644)
+	sort.Slice(keys, func(i, j int) bool { return keys[i] < keys[j] })
+	buf := make([]byte, 8*len(keys))
+	for i, k := range keys {
+		binary.LittleEndian.PutUint64(buf[8*i:], k)
+	}
+	os.WriteFile(out+".sigs", buf, 0o644)
 }
 
 // TestReplay re-executes a replay file in a fresh process. It prints
